@@ -183,10 +183,12 @@ def finish(prop, tier, seed, parts, t0, meta):
           '%d known-finding hits, %d violations, wall %.1fs' % (prop, tier, tot['obligations'], tot['discharged'],
                                                                len(inconclusive), json.dumps(inc_summary), tot['paths'], tot['queries'], solver_time,
                                                                sum(known_hits.values()), len(violations), wall))
-    if errors or mismatches:
-        return 2
+    # a violation has been replayed on the real code: it is reported (exit 1) even if another part of the check hit a harness error;
+    # a harness error without any confirmed violation is exit 2 (the check is broken, nothing it says is a pass)
     if violations:
         return 1
+    if errors or mismatches:
+        return 2
     return 0
 
 
